@@ -1,12 +1,19 @@
-/-! Model of `optimalPartition`, `backtracking`, `backward`, `optimalSegmentation` (algo/segmentation.py)
-and of `optimalSimplification` / the two "free" modes of `simplify` (algo/simplification.py).
+/-! Model of `optimalPartition`, `backtracking`, `backward`, `optimalSegmentation`, `findStopsGlobal`'s reward matrix
+(algo/segmentation.py) and of `optimalSimplification` / `simplify`'s modes 4–8 (algo/simplification.py, as of b8f1113:
+parameter and direction forwarded).
 
-Two forms:
-* the *table* form (`optimalPartition`, run by the driver) mirrors the Python line by line: `N = rows − 1`,
-  tables `D`, `M` initialised on the upper triangle, filled in place by increasing diagonals, both
+`optimalPartition` has two forms:
+* the *table* form (`optimalPartition`, run by the driver on arrays: `Model/PartitionArr.lean`) mirrors the Python line by
+  line: `N = rows − 1`, tables `D`, `M` initialised on the upper triangle, filled in place by increasing diagonals, both
   direction tests as written, `backward`/`backtracking` on `M`;
 * the *function* form (`opt`, fuel-indexed interval recursion with the strict scan) is what the optimality
   lemmas are proved about; `Lemmas/PartitionTable.lean` proves the two equal.
+
+The front ends (second half of the file) are modelled from the caller's arguments down to the call of
+`optimalPartition`: the call protocol of the user's cost function (`CostFn`: three / four parameters, default value, not
+callable; `glob_param is None` selects the three-argument call, EVERY other value is passed), the loops that fill the
+matrix (in place, loop form, with `findStopsGlobal`'s `break`), `C + C.T`, degenerate track sizes and the exceptions.
+Geometry (`minCircle`, distances, timestamps, the built-in cost functions of `simplify`) enters as parameters.
 
 `better a b` is the strict test of the selected direction (`a < b` to minimise, `a > b` to maximise).
 Core Lean only; polymorphic in the scalar (`Rat`/`Int` and `Float` in the driver, an ordered monoid in the proofs). -/
